@@ -252,6 +252,7 @@ class Gauleg(Entry):
                 a, b, n = np.array(a), np.array(b), np.array(n)
             elif af == "bool":
                 n = True
+            _clobber(c.get("clobber"), [c["n"]], interval=(float.fromhex(c["a"]), float.fromhex(c["b"])))
             if c.get("decoy") and c["n"] >= 1:
                 # same count on another interval, same interval with another count, just before
                 gauleg(float.fromhex(c["a"]) + 1.0, float.fromhex(c["b"]) * 2.0 + 3.0, c["n"])
@@ -480,7 +481,67 @@ def _with_decoys(cs):
     call is then judged as usual by the Coq model and the verified checker."""
     for i, c in enumerate(cs):
         c.setdefault("decoy", i % 2 == 1)
+        # every third case: the harness, playing an earlier caller, first obtains the arrays the library RETURNS or
+        # exposes for the same point counts and overwrites them in place (see _clobber)
+        c.setdefault("clobber", ("scale", "zero", "reverse")[(i // 3) % 3] if i % 3 == 0 else None)
     return cs
+
+
+def _rule(n):
+    """the rule on [-1,1] the library computes, as private COPIES taken before anything else happens in the case,
+    and sanity-checked against numpy's leggauss (a rule that is not the Gauss-Legendre rule to the statement's
+    1e-9 (b-a) -- e.g. because an earlier caller's arrays were handed out again -- is reported, not used)"""
+    import numpy as np
+    import esutil.integrate as ig
+    z, w = ig.gauleg(-1.0, 1.0, n)
+    z, w = np.array(z, dtype="f8", copy=True), np.array(w, dtype="f8", copy=True)
+    if n >= 1 and np.all(np.isfinite(w)):
+        rz, rw = np.polynomial.legendre.leggauss(n)
+        if z.shape != rz.shape or np.max(np.abs(z - rz)) > 2e-9 or np.max(np.abs(w - rw)) > 2e-9:
+            raise RuntimeError("gauleg(-1, 1, %d) does not return the Gauss-Legendre rule (max node diff %.3g)" % (
+                n, float(np.max(np.abs(z - rz))) if z.shape == rz.shape else float("nan")))
+    return z, w
+
+
+def _clobber(mode, ns, interval=None, shape2=None):
+    """Ownership / aliasing: arrays handed out by the library belong to the caller.  For each point count in [ns]
+    obtain gauleg(-1,1,n) (and gauleg on [interval]), the rule held by a QGauss(n) object and, for [shape2], the
+    grids of a QGauss2 object; overwrite all of them IN PLACE (the ordinary idiom `x *= .5; x += .5; w *= .5`, or
+    zeros, or reversed order) and drop them.  Two successive results must not share memory either.  The real call
+    that follows is judged as a single call by the model and the checker."""
+    import numpy as np
+    import esutil.integrate as ig
+    if not mode:
+        return
+
+    def spoil(*arrs):
+        for a in arrs:
+            if mode == "scale":
+                a *= 0.5
+                a += 0.5
+            elif mode == "zero":
+                a[...] = 0.0
+            else:
+                a[...] = a[..., ::-1].copy() * 3.0
+    for n in ns:
+        if n is None or n < 1:
+            continue
+        x, w = ig.gauleg(-1.0, 1.0, n)
+        x2, w2 = ig.gauleg(-1.0, 1.0, n)
+        if any(np.shares_memory(p, q_) for p in (x, w) for q_ in (x2, w2)) or np.shares_memory(x, w):
+            raise RuntimeError("two gauleg results share memory")
+        spoil(x, w)
+        if interval is not None:
+            spoil(*ig.gauleg(interval[0], interval[1], n))
+        q1, q2 = ig.QGauss(n), ig.QGauss(n)
+        if np.shares_memory(q1.xxi, q2.xxi) or np.shares_memory(q1.wii, q2.wii):
+            raise RuntimeError("two QGauss objects share their rule arrays")
+        spoil(q1.xxi, q1.wii)
+    if shape2 is not None:
+        g1, g2 = ig.QGauss2(*shape2), ig.QGauss2(*shape2)
+        if any(np.shares_memory(getattr(g1, k), getattr(g2, k)) for k in ("xgrid", "ygrid", "wgrid")):
+            raise RuntimeError("two QGauss2 objects share their grids")
+        spoil(g1.xgrid, g1.ygrid, g1.wgrid)
 
 
 # ---- input forms (follow-up round): how a range / a callable / a table is handed to the code ------------
@@ -658,7 +719,8 @@ class Func(Entry):
 
         def run():
             x1, x2, n = float.fromhex(c["x1"]), float.fromhex(c["x2"]), c["n"]
-            zs, ws = ig.gauleg(-1.0, 1.0, n)
+            zs, ws = _rule(n)
+            _clobber(c.get("clobber"), [n])
             if c.get("decoy"):
                 # same range values and count with another integrand; same integrand object with another range
                 call(lambda xi: np.cos(xi) + 2.0, make_range(x1, x2, xform), n)
@@ -865,7 +927,8 @@ class Data(Entry):
             snap = lambda t: t.tobytes() if hasattr(t, "tobytes") else repr(t)   # noqa: E731
             keep = (snap(xv), snap(yv))
             n = c["n"]
-            zs, ws = ig.gauleg(-1.0, 1.0, n)
+            zs, ws = _rule(n)
+            _clobber(c.get("clobber"), [n])
             if c.get("decoy"):
                 # a table of the same length with the same end points (hence the same abscissae), other interior
                 # points and other ordinates, integrated with the same count just before
@@ -978,8 +1041,9 @@ class Func2(Entry):
             return z
 
         def run():
-            x, wx = ig.gauleg(-1.0, 1.0, c["nx"])
-            y, wy = ig.gauleg(-1.0, 1.0, c["ny"])
+            x, wx = _rule(c["nx"])
+            y, wy = _rule(c["ny"])
+            _clobber(c.get("clobber"), [c["nx"], c["ny"]], shape2=(c["nx"], c["ny"]))
             if c.get("decoy"):
                 # same grid SIZE with the transposed shape, and the same shape with the two ranges exchanged
                 ig.QGauss2(c["ny"], c["nx"]).integrate_func([float.fromhex(c["y1"]), float.fromhex(c["y2"])],
@@ -1081,7 +1145,7 @@ class History(Entry):
                 if r.random() < 0.5:
                     c["sets"] = [r.choice([0, 1, 2, 3]) for _n in ops]
             cs.append(c)
-        return cs
+        return _with_decoys(cs)
 
     def impl(self, c):
         import numpy as np
@@ -1134,7 +1198,7 @@ class History(Entry):
 
         def direct(kind, a0, a1, k):
             """the k-point weighted sum computed outside any QGauss object (its caches cannot touch this)"""
-            z, w = ig.gauleg(-1.0, 1.0, k)
+            z, w = _rule(k)
             if kind == "data":
                 xa, ya = np.asarray(a0, dtype="f8"), np.asarray(a1, dtype="f8")
                 u1, u2 = xa.min(), xa.max()
@@ -1147,9 +1211,13 @@ class History(Entry):
             return f1 * (yy * w).sum()
 
         def run():
+            counts = sorted(set(n for n in list(c["ops"]) + [c["n0"]] if n is not None and n >= 1))
+            _clobber(c.get("clobber"), counts)
             qg = ig.QGauss(conv(c["n0"], c.get("n0style", "py")))
             obs = []
-            for n, kind, style, st in zip(c["ops"], kinds, styles, sets):
+            for j, (n, kind, style, st) in enumerate(zip(c["ops"], kinds, styles, sets)):
+                if j == 1:
+                    _clobber(c.get("clobber"), counts)     # ... and again between the calls on the object
                 args = arguments(kind, st)
                 try:
                     if style == "omit":
@@ -1213,7 +1281,7 @@ class History2(Entry):
         for c in cs:     # integrands that underflow to subnormals on wide ranges: see _no_underflow
             big = max(abs(float.fromhex(h)) for rg in c["rngs"] for h in rg) > 30.0
             c["fns"] = [("ratio" if big and f == "gauss2" else f) for f in c["fns"]]
-        return cs
+        return _with_decoys(cs)
 
     def impl(self, c):
         import numpy as np
@@ -1221,6 +1289,7 @@ class History2(Entry):
         fs = _funcs2()
 
         def run():
+            _clobber(c.get("clobber"), [c["nx"], c["ny"], c["ny"] + 1], shape2=(c["nx"], c["ny"]))
             qg = ig.QGauss2(c["nx"], c["ny"])
             grids = (qg.xgrid.tobytes(), qg.ygrid.tobytes(), qg.wgrid.tobytes())
             xr, yr = [0.0, 0.0], [0.0, 0.0]          # the SAME two list objects for every call when inplace
@@ -1235,8 +1304,8 @@ class History2(Entry):
                 f = fs[c["fns"][j]]
                 def direct(nx, ny):
                     """the tensor-product sum computed from gauleg alone (no QGauss2 object, no cache of one)"""
-                    gx, wx = ig.gauleg(-1.0, 1.0, nx)
-                    gy, wy = ig.gauleg(-1.0, 1.0, ny)
+                    gx, wx = _rule(nx)
+                    gy, wy = _rule(ny)
                     xg, yg = np.meshgrid(gx, gy)
                     xf1, xf2 = (v[1] - v[0]) / 2.0, (v[1] + v[0]) / 2.0
                     yf1, yf2 = (v[3] - v[2]) / 2.0, (v[3] + v[2]) / 2.0
